@@ -700,7 +700,44 @@ func (g *Gen) genRecursive() {
 	self := func(args ...Expr) Expr { return call(name, args...) }
 	dec := &BinOp{"-", v("n"), &IntLit{1}}
 	var f *FuncDef
-	switch g.R.Intn(5) {
+	var tr *UnionDef
+	for _, u := range g.unions {
+		if u.Name == "Tr" {
+			tr = u
+		}
+	}
+	k := g.R.Intn(5)
+	if tr != nil && g.R.Chance(0.6) {
+		k = 5
+	}
+	switch k {
+	case 5:
+		// structural recursion over the self-referential union, one arm per case
+		m := &MatchU{Target: v("t"), Union: tr}
+		for i, c := range tr.Cases {
+			var body *Block
+			switch {
+			case c.Payload == nil:
+				body = ExprBlock(ev(&IntLit{g.R.Intn(4)}))
+			case c.Payload.K == KInt:
+				body = ExprBlock(ev(v("p")))
+			case c.Payload.K == KUnion:
+				body = ExprBlock(&BinOp{"+", &IntLit{1}, self(v("p"))})
+			case c.Payload.K == KSlice:
+				body = ExprBlock(call("slice.Fold", &Lambda{Params: []Param{{Name: "a", T: TInt}, {Name: "b", T: TInt}}, Body: ExprBlock(&BinOp{"+", v("a"), v("b")})}, &IntLit{0}, call("slice.Map", v(name), v("p"))))
+			case c.Payload.Args[0].K == KUnion:
+				body = &Block{Stmts: []Stmt{&LetDestr{[]string{"l", "r"}, v("p")}}, Result: &BinOp{core.Pick(g.R, []string{"+", "-"}), self(v("l")), self(v("r"))}}
+			default: // string * Tr
+				body = ExprBlock(&BinOp{"+", call("strings.Length", call("frt.Fst", v("p"))), self(call("frt.Snd", v("p")))})
+			}
+			arm := UArm{Case: i, Body: body}
+			if c.Payload != nil {
+				arm.Bind = "p"
+			}
+			m.Arms = append(m.Arms, arm)
+		}
+		f = &FuncDef{Name: name, Params: []Param{{Name: "t", T: TUnion("Tr")}}, Ret: TInt, AnnotRet: true, Body: &Block{Result: m}}
+		g.feat("recursion-over-recursive-union")
 	case 0:
 		// let sumTo (n:int) : int = if n <= 0 then (evI tag 0) else n + sumTo (n - 1)
 		body := &Block{Result: &If{Cond: &BinOp{"<=", v("n"), &IntLit{0}},
@@ -805,6 +842,8 @@ func (g *Gen) genRun() {
 						args = append(args, &IntLit{g.R.Intn(5)})
 					case KString:
 						args = append(args, &StrLit{g.strLitVal()})
+					case KUnion:
+						args = append(args, g.expr(p.T, sc, 4, true))
 					default: // slice of int
 						sl := &SliceLit{Elem: TInt}
 						nq := g.R.Intn(4)
